@@ -267,9 +267,15 @@ Definition agree (c : case) : Z :=
   | CRank a out => rank_agree a out
   | _ => if forallb cmp_ok (comparisons c) then 0%Z else 1%Z
   end.
+(* conjunct 20 (judged last): "equals its geometric definition to within rounding" — the implementation's value is
+   within tolerance of the closed form of the theorems evaluated on doubles (the same comparison as `agree`,
+   reported as a property violation with a failing input when no other law breaks) *)
+Definition holds20 (c : case) : Z :=
+  let h := holds c in
+  if (h =? 0)%Z then (if forallb cmp_ok (comparisons c) then 0%Z else 20%Z) else h.
 (* result code = 100 * agree + holds *)
 Definition judge (c : case) : Z :=
-  if negb (in_dom c) then 600%Z else (100 * agree c + holds c)%Z.
+  if negb (in_dom c) then 600%Z else (100 * agree c + holds20 c)%Z.
 Definition judgex (c : case) : Z :=
   if negb (in_dom c) then 600%Z
   else (judge c + 1000 * Z.of_nat (length (filter cmp_exact (comparisons c)))
